@@ -283,14 +283,14 @@ def run_world(build, until, chooser, lazy=True, cache=True, max_loop_iterations=
         def _on_alarm(signum, frame):
             raise _Watchdog()
         old_handler = signal.signal(signal.SIGALRM, _on_alarm)
-        signal.alarm(30)        # a scenario takes milliseconds; the closures before the first step can loop for D7-class scenarios
+        signal.alarm(10)        # a scenario takes milliseconds; the closures before the first step can loop for D7-class scenarios
         try:
             with warnings.catch_warnings():
                 warnings.simplefilter("ignore")
                 world.run(until=until, print_progress=False, lazy_stepping=lazy, rt_factor=rt_factor, rt_strict=rt_strict)
             outcome = "finished"
         except _Watchdog:
-            outcome = "failed Hang run() did not return within 30 s"
+            outcome = "failed Hang run() did not return within 10 s"
         except asyncio.CancelledError:
             outcome = "deadlock"
         except BaseException as e:  # noqa: BLE001
